@@ -1,0 +1,41 @@
+//! Verification hooks. This module only exists when lrtable is compiled with
+//! `--cfg grmtools_verif`: it counts events inside Pager's algorithm that are not observable
+//! from the finished state graph (states re-queued after a merge changed them, states dropped
+//! by the final garbage collection), so an external monitor can tell whether a workload
+//! actually exercised those paths.
+
+use std::cell::Cell;
+
+thread_local! {
+    static REQUEUED: Cell<u64> = const { Cell::new(0) };
+    static MERGES: Cell<u64> = const { Cell::new(0) };
+    static GC_DROPPED: Cell<u64> = const { Cell::new(0) };
+}
+
+/// (merges, states re-queued after a merge changed them, states dropped by gc) on this thread
+/// since the last call to `reset`.
+pub fn counters() -> (u64, u64, u64) {
+    (
+        MERGES.with(|c| c.get()),
+        REQUEUED.with(|c| c.get()),
+        GC_DROPPED.with(|c| c.get()),
+    )
+}
+
+pub fn reset() {
+    MERGES.with(|c| c.set(0));
+    REQUEUED.with(|c| c.set(0));
+    GC_DROPPED.with(|c| c.set(0));
+}
+
+pub(crate) fn note_merge() {
+    MERGES.with(|c| c.set(c.get() + 1));
+}
+
+pub(crate) fn note_requeue() {
+    REQUEUED.with(|c| c.set(c.get() + 1));
+}
+
+pub(crate) fn note_gc(dropped: usize) {
+    GC_DROPPED.with(|c| c.set(c.get() + dropped as u64));
+}
